@@ -203,6 +203,54 @@ end
 
 end Decode
 
+/-! ### OpenSCAD's defaults for omitted parameters
+The library's emitter writes every parameter, so the round-trip theorems never need a default.  The
+*oracle* that reads text produced by the implementation applies them first: a parameter that is not
+bound takes the value OpenSCAD documents for it, so an emitter that leaves out `center=false` is not
+reported, one that leaves out `center=true` is. -/
+def one : Val := .num c!"1"
+def defaultsOf (name : List Char) : List (List Char × Val) :=
+  if name = c!"circle" ∨ name = c!"sphere" then [(c!"r", one)]
+  else if name = c!"square" then [(c!"size", .vec [one, one]), (c!"center", .bool false)]
+  else if name = c!"cube" then [(c!"size", .vec [one, one, one]), (c!"center", .bool false)]
+  else if name = c!"cylinder" then [(c!"h", one), (c!"r1", one), (c!"r2", one), (c!"center", .bool false)]
+  else if name = c!"polygon" then [(c!"paths", .undef), (c!"convexity", one)]
+  else if name = c!"polyhedron" then [(c!"convexity", one)]
+  else if name = c!"text" then [(c!"size", .num c!"10"), (c!"font", .str c!"Liberation Sans"), (c!"halign", .str c!"left"),
+      (c!"valign", .str c!"baseline"), (c!"spacing", one), (c!"direction", .str c!"ltr"), (c!"language", .str c!"en"),
+      (c!"script", .str c!"latin")]
+  else if name = c!"import" then [(c!"convexity", one)]
+  else if name = c!"projection" then [(c!"cut", .bool false)]
+  else if name = c!"linear_extrude" then [(c!"center", .bool false), (c!"convexity", one), (c!"twist", .num c!"0"),
+      (c!"scale", .vec [one, one])]
+  else if name = c!"rotate_extrude" then [(c!"angle", .num c!"360"), (c!"convexity", one)]
+  else if name = c!"surface" then [(c!"center", .bool false), (c!"invert", .bool false), (c!"convexity", one)]
+  else if name = c!"resize" then [(c!"auto", .bool false), (c!"convexity", one)]
+  else if name = c!"minkowski" then [(c!"convexity", one)]
+  else []
+
+/-- append `name = default` for every documented default whose parameter the arguments leave unbound
+(`offset` takes `chamfer = false` only in its `delta` form) -/
+def completeArgs (name : List Char) (args : List PArg) : List PArg :=
+  match signature name with
+  | none => args
+  | some sig =>
+    match bindArgs sig args false [] with
+    | none => args
+    | some env =>
+      let ds := if name = c!"offset" then
+          (if (env.get c!"delta").isSome then [(c!"chamfer", Val.bool false)] else [])
+        else defaultsOf name
+      args ++ (ds.filter fun (k, _) => (env.get k).isNone).map fun (k, v) => ⟨some k, v⟩
+
+mutual
+def completeStmt : Stmt → Stmt
+  | .mk name args body => .mk name (completeArgs name args) (match body with | none => none | some b => some (completeStmts b))
+def completeStmts : StmtList → StmtList
+  | .nil => .nil
+  | .cons h t => .cons (completeStmt h) (completeStmts t)
+end
+
 /-- shape of a statement / tree: operation names and children, in order -/
 inductive Shape where
   | node (name : List Char) (children : List Shape)
